@@ -13,6 +13,8 @@ use crate::model::chunk::{encode, ChunkSpec, Coding, Encoded};
 
 const HEAD: &[u8] = b"HTTP/1.1 200 OK\r\nTransfer-Encoding: chunked\r\n\r\n";
 const NEXT: &[u8] = b"HTTP/1.1 204 No Content\r\n\r\n0\r\n\r\nGARBAGE";
+/// what follows the coding in the stream: a next response, a stray CRLF before it, chunk-looking bytes
+const TAILS: [&[u8]; 4] = [NEXT, b"\r\nHTTP/1.1 200 OK\r\n\r\n", b"0\r\n\r\n5\r\nhello\r\n", b"\r\n\r\n"];
 
 /// payload bytes cycle through protocol-relevant characters
 fn small_payload(n: usize) -> Vec<u8> {
@@ -32,7 +34,8 @@ pub struct Sched<'a> {
 /// Drive one reader over `enc` + NEXT under the schedule, checking every clause of C07.
 pub fn run_decode(api: Api, enc: &Encoded, payload: &[u8], s: &Sched, st: &mut Stats) -> Result<(), String> {
     let mut stream = enc.bytes.clone();
-    stream.extend_from_slice(NEXT);
+    // the tail rotates with the schedule so that every coding meets every kind of following bytes
+    stream.extend_from_slice(TAILS[(s.cuts.len() + s.outs.len() + s.stops.len() + enc.bytes.len()) % TAILS.len()]);
     let clen = enc.bytes.len();
     let method = Method::GET;
     let mut r = Reader::new(api, &method, false, HEAD)?;
@@ -342,17 +345,85 @@ fn exec_pairs(t: &mut Tape, st: &mut Stats) -> Result<(), String> {
         }
         Ok(())
     };
-    run(&[len + NEXT.len()], true, st)?;
+    run(&[len + 64], true, st)?;
     for (i, a) in pos.iter().enumerate() {
-        run(&[*a, len + NEXT.len()], true, st)?;
+        run(&[*a, len + 64], true, st)?;
         for b in &pos[i + 1..] {
-            run(&[*a, *b, len + NEXT.len()], false, st)?;
+            run(&[*a, *b, len + 64], false, st)?;
         }
     }
     st.class("pairs_coding");
     if st.wants_sample() && coding.chunks.len() == 2 && coding.trailers.len() == 1 {
         st.sample(json!({"stage": "pairs", "coding": coding_json(coding), "cut_positions": pos}));
     }
+    Ok(())
+}
+
+/// Stage 'limit': size lines at the decoder's 20-byte limit (zero padding or a long extension), one or two chunks,
+/// every single cut inside and around the size lines x all modes.
+fn exec_limit(t: &mut Tape, st: &mut Stats) -> Result<(), String> {
+    let line_len = 17 + t.below(4); // 17..=20
+    let pad_style = t.below(3); // 0 zeros, 1 extension, 2 spaces + extension
+    let nchunks = 1 + t.below(2);
+    let data_len = [1usize, 5, 16, 255][t.below(4)];
+    st.case_digest = t.digest();
+    let digits = format!("{:x}", data_len).len();
+    let mk = |len: usize| -> ChunkSpec {
+        match pad_style {
+            0 => ChunkSpec { len, upper: false, lead_zeros: line_len - digits, ext: vec![] },
+            1 => {
+                let mut ext = b";n=".to_vec();
+                while digits + ext.len() < line_len {
+                    ext.push(b'v');
+                }
+                ChunkSpec { len, upper: true, lead_zeros: 0, ext }
+            }
+            _ => {
+                let mut ext = b"  ;".to_vec();
+                while digits + ext.len() < line_len {
+                    ext.push(b'e');
+                }
+                ChunkSpec { len, upper: false, lead_zeros: 0, ext }
+            }
+        }
+    };
+    let coding = Coding {
+        chunks: (0..nchunks).map(|_| mk(data_len)).collect(),
+        last_ext: if pad_style == 1 { b";0123456789abcdefgh".to_vec() } else { vec![] },
+        last_zeros: if pad_style == 0 { 19 } else { 0 },
+        trailers: vec![],
+    };
+    let payload = small_payload(data_len * nchunks);
+    let enc = encode(&coding, &payload);
+    let len = enc.bytes.len();
+    st.describe(|| json!({"stage": "limit", "size_line_len": line_len, "coding": coding_json(&coding), "wire_head": String::from_utf8_lossy(&enc.bytes[..enc.bytes.len().min(60)])}));
+    // all single cuts in the first 2 * (line + 4) bytes and around every boundary
+    let mut pos: Vec<usize> = (1..(2 * (line_len + 4)).min(len)).collect();
+    for b in &enc.boundaries {
+        for d in 0..(line_len + 4) {
+            if b + d < len {
+                pos.push(b + d);
+            }
+        }
+    }
+    for d in 0..26 {
+        pos.push(len.saturating_sub(d).max(1));
+    }
+    pos.sort_unstable();
+    pos.dedup();
+    for (k, a) in pos.iter().enumerate() {
+        for (oi, outs) in OUT_MODES.iter().enumerate() {
+            for (si, stops) in STOP_MODES.iter().enumerate() {
+                if data_len > 16 && outs.iter().all(|o| *o <= 5) && (k + oi + si) % 4 != 0 {
+                    continue;
+                }
+                let api = if (k + oi + si) % 2 == 0 { Api::Flow } else { Api::Call };
+                run_decode(api, &enc, &payload, &Sched { cuts: &[*a, len + 40], outs, stops }, st)?;
+                st.count_nontrivial(1);
+            }
+        }
+    }
+    st.class("limit_coding");
     Ok(())
 }
 
@@ -381,7 +452,7 @@ fn exec_random(t: &mut Tape, st: &mut Stats) -> Result<(), String> {
             _ => b";\"x y\"".to_vec(),
         };
         let digits = format!("{:x}", len).len();
-        let lead_zeros = if t.chance(20) { t.range(1, 3) } else { 0 };
+        let lead_zeros = if t.chance(20) { t.range(1, 3) } else if t.chance(8) { 20 } else { 0 };
         let lead_zeros = lead_zeros.min(20usize.saturating_sub(digits + ext.len()));
         chunks.push(ChunkSpec { len, upper: t.bool(), lead_zeros, ext });
     }
@@ -425,7 +496,7 @@ fn exec_random(t: &mut Tape, st: &mut Stats) -> Result<(), String> {
     }
     cuts.sort_unstable();
     cuts.dedup();
-    cuts.push(len + NEXT.len());
+    cuts.push(len + 64);
     let nouts = t.range(1, 4);
     let outs: Vec<usize> = (0..nouts)
         .map(|i| match t.weighted(&[3, 3, 2, 1]) {
@@ -475,9 +546,10 @@ extension on/off on chunk and last-chunk lines, 0..2 trailers, payload cycling C
 modes, API alternating. enumeration 'pairs': every coding of the full small-scope grammar (thorough: <= 3 chunks of sizes \
 {1,2,3,15,16,255,256,4095,4096}; quick: <= 1 chunk of those sizes plus 2 chunks of sizes up to 256) x all single cuts at the \
 structural positions (around every CR, LF, ';', chunk boundary, end, into the next message) x all 27 modes, and all double cuts \
-x 3 of the 27 modes rotating with the pair index. random: 0..30 chunks up to 70000 bytes, extensions with spaces and \
-quotes, leading zeros, trailers, random cut sets incl. byte-by-byte stretches, random output cycles. Every run is followed by the \
-bytes of a next message. Oracle per read: counts in range, output == next payload bytes, no read across two chunks while stop is \
+x 3 of the 27 modes rotating with the pair index. enumeration 'limit': size lines of 17..20 bytes (the decoder's limit is 20) made of zero padding or long extensions, 1..2 chunks, \
+every single cut in and around the size lines x all modes. random: 0..30 chunks up to 70000 bytes, extensions with spaces and \
+quotes, leading zeros, trailers, random cut sets incl. byte-by-byte stretches, random output cycles. Every run is followed by further bytes \
+(a next response, a stray CRLF and a response, chunk-looking bytes, bare CRLFs - rotating) that must stay untouched. Oracle per read: counts in range, output == next payload bytes, no read across two chunks while stop is \
 on, consumed never beyond the coding, is_on_chunk_boundary() <=> offset is a chunk boundary, ended <=> final CRLF consumed, \
 no stall once everything arrived, (0,0) after the end. non-trivial = every (coding, cut set, modes) run of the enumerations \
 (distinct by construction: counted by enumeration index, not hashed) plus random cases with a cut strictly inside a structural element \
@@ -494,6 +566,13 @@ no stall once everything arrived, (0,0) after the end. non-trivial = every (codi
             tape: |t, idx| vec![t.pick(0, 1), idx as u32],
             exhaustive: true,
             exec: Some(exec_cutsets),
+        },
+        EnumDef {
+            name: "limit",
+            count: |_t: Tier| 4 * 3 * 2 * 4,
+            tape: |_, idx| crate::infra::runner::radix(idx, &[4, 3, 2, 4]),
+            exhaustive: true,
+            exec: Some(exec_limit),
         },
         EnumDef {
             name: "pairs",
